@@ -3,10 +3,16 @@ package props
 import (
 	"bytes"
 	"crypto/sha256"
+	"encoding/hex"
 	"fmt"
 	"math/big"
+	"sort"
+	"strings"
 	"testing"
 	"time"
+
+	pb "github.com/google/go-tdx-guest/proto/tdx"
+	"google.golang.org/protobuf/proto"
 
 	"github.com/google/go-tdx-guest/testing/testdata"
 	"github.com/google/go-tdx-guest/verify"
@@ -355,6 +361,94 @@ func TestC01(t *testing.T) {
 				}
 			}
 		}
+	})
+
+	// (1c) message-level mutants: fields of the QuoteV4 message that no byte string can express
+	// (32-bit message fields that serialise to 16 bits) and single bits of every signed field.
+	gen.Direct(t, "message-fields", func(t *testing.T) {
+		w := gen.NewWorld(gen.NewPKI(gen.PKISpec{Seed: "pki-B"}), gen.NewStream(gen.Seed()+5, "c01msg")).Build()
+		type mm struct {
+			name  string
+			apply func(m *pb.QuoteV4)
+		}
+		var muts []mm
+		for _, d := range []uint32{1 << 16, 1 << 17, 1 << 31, 0xffff0000} {
+			d := d
+			muts = append(muts,
+				mm{fmt.Sprintf("header.version+%#x", d), func(m *pb.QuoteV4) { m.Header.Version += d }},
+				mm{fmt.Sprintf("header.attestation_key_type+%#x", d), func(m *pb.QuoteV4) { m.Header.AttestationKeyType += d }},
+				mm{fmt.Sprintf("header.tee_type^%#x", d), func(m *pb.QuoteV4) { m.Header.TeeType ^= d }},
+				mm{fmt.Sprintf("qe.isv_svn+%#x", d), func(m *pb.QuoteV4) { m.SignedData.CertificationData.QeReportCertificationData.QeReport.IsvSvn += d }},
+				mm{fmt.Sprintf("qe.isv_prod_id+%#x", d), func(m *pb.QuoteV4) { m.SignedData.CertificationData.QeReportCertificationData.QeReport.IsvProdId += d }},
+				mm{fmt.Sprintf("qe.misc_select^%#x", d), func(m *pb.QuoteV4) { m.SignedData.CertificationData.QeReportCertificationData.QeReport.MiscSelect ^= d }},
+			)
+		}
+		for _, d := range []uint32{1, 2, 0x8000} {
+			d := d
+			muts = append(muts,
+				mm{fmt.Sprintf("qe.isv_svn^%#x", d), func(m *pb.QuoteV4) { m.SignedData.CertificationData.QeReportCertificationData.QeReport.IsvSvn ^= d }},
+				mm{fmt.Sprintf("qe.isv_prod_id^%#x", d), func(m *pb.QuoteV4) { m.SignedData.CertificationData.QeReportCertificationData.QeReport.IsvProdId ^= d }},
+			)
+		}
+		bytesFields := func(m *pb.QuoteV4) map[string]*[]byte {
+			r := m.SignedData.CertificationData.QeReportCertificationData
+			b := m.TdQuoteBody
+			out := map[string]*[]byte{"header.pce_svn": &m.Header.PceSvn, "header.qe_svn": &m.Header.QeSvn, "header.qe_vendor_id": &m.Header.QeVendorId, "header.user_data": &m.Header.UserData,
+				"body.tee_tcb_svn": &b.TeeTcbSvn, "body.mr_seam": &b.MrSeam, "body.mr_signer_seam": &b.MrSignerSeam, "body.seam_attributes": &b.SeamAttributes, "body.td_attributes": &b.TdAttributes, "body.xfam": &b.Xfam,
+				"body.mr_td": &b.MrTd, "body.mr_config_id": &b.MrConfigId, "body.mr_owner": &b.MrOwner, "body.mr_owner_config": &b.MrOwnerConfig, "body.report_data": &b.ReportData,
+				"body.rtmr0": &b.Rtmrs[0], "body.rtmr1": &b.Rtmrs[1], "body.rtmr2": &b.Rtmrs[2], "body.rtmr3": &b.Rtmrs[3],
+				"signature": &m.SignedData.Signature, "attestation_key": &m.SignedData.EcdsaAttestationKey,
+				"qe.cpu_svn": &r.QeReport.CpuSvn, "qe.reserved1": &r.QeReport.Reserved1, "qe.attributes": &r.QeReport.Attributes, "qe.mr_enclave": &r.QeReport.MrEnclave, "qe.reserved2": &r.QeReport.Reserved2,
+				"qe.mr_signer": &r.QeReport.MrSigner, "qe.reserved3": &r.QeReport.Reserved3, "qe.reserved4": &r.QeReport.Reserved4, "qe.report_data": &r.QeReport.ReportData,
+				"qe_report_signature": &r.QeReportSignature, "qe_auth_data": &r.QeAuthData.Data}
+			return out
+		}
+		names := []string{}
+		for n := range bytesFields(w.Q.ToProto()) {
+			names = append(names, n)
+		}
+		sort.Strings(names)
+		for _, n := range names {
+			n := n
+			for _, pos := range []string{"first", "last", "middle"} {
+				pos := pos
+				muts = append(muts, mm{n + ":" + pos + "-bit", func(m *pb.QuoteV4) {
+					b := *bytesFields(m)[n]
+					if len(b) == 0 {
+						return
+					}
+					switch pos {
+					case "first":
+						b[0] ^= 0x80
+					case "last":
+						b[len(b)-1] ^= 0x01
+					default:
+						b[len(b)/2] ^= 0x10
+					}
+				}})
+			}
+		}
+		for i, mu := range muts {
+			if !gen.ShardOwns(i) {
+				continue
+			}
+			for _, l := range []gen.Level{gen.LvlBase, gen.LvlColl} {
+				m := w.Q.ToProto()
+				mu.apply(m)
+				o := w.Options(l, w.NewGetter(), nil)
+				gen.Eval()
+				v := gen.Call(func() error { return verify.TdxQuote(m, o) })
+				if v.Accepted() {
+					mb, _ := proto.Marshal(m)
+					gen.Fail(t, gen.Violation{Key: "accepts-altered-message-field:" + strings.SplitN(mu.name, ":", 2)[0], Oracle: "no bit of the header, TD body, attestation key, QE report or QE authentication data of a genuine quote can change without the quote being rejected",
+						Detail: fmt.Sprintf("message mutant %s accepted at level %s", mu.name, l), Replay: map[string]any{"kind": "crash-message", "proto_hex": hex.EncodeToString(mb), "mutation": mu.name}})
+					return
+				}
+				gen.NonTrivial("msgfield", mu.name, int(l))
+				gen.Class("class:message-field")
+			}
+		}
+		gen.Exhaustive("message-level mutants: high bits of every 16-bit-on-the-wire message field, three bit positions of every signed bytes field", true)
 	})
 
 	// (2) structured forgeries with a verdict known by construction.
